@@ -162,4 +162,5 @@ package bug
 //@   loop 1
 //@     invariant snap != nil && fresh(snap) && len(snap.Operations) == rangeindex + 1 && (snap.Operations == nil || fresh(snap.Operations))
 //@     invariant dag.applyCount == c0 + rangeindex + 1
+//@     invariant rangeindex < 0 ==> snap.Status == common.OpenStatus && len(snap.Timeline) == 0 && len(snap.Comments) == 0 && len(snap.Labels) == 0
 //@     invariant forall k int :: { rangeslice[k] } 0 <= k && k <= rangeindex ==> dag.applied[c0 + k] == rangeslice[k] && dag.appliedOn[c0 + k] == snap && snap.Operations[k] == rangeslice[k]
